@@ -10,6 +10,7 @@ import (
 	"sort"
 	"strings"
 	"sync"
+	"sync/atomic"
 	"testing"
 	"time"
 
@@ -41,6 +42,19 @@ func configs(thorough bool) []Config {
 				}
 				out = append(out, Config{End: end, Mix: mix, Stops: stops})
 				out = append(out, Config{End: end, Mix: mix, Stops: stops, SecondRun: true})
+			}
+		}
+	}
+	// a nested archetype that ends on its own while the outer archetype is still running
+	for _, nested := range []string{"done0", "done1", "err0", "err1", "assert0", "assert1"} {
+		for _, skip := range []bool{false, true} {
+			for _, end := range []string{"done", "loop"} {
+				for stops := 0; stops <= 2; stops++ {
+					if end == "loop" && stops == 0 {
+						continue
+					}
+					out = append(out, Config{End: end, Mix: "nested", Stops: stops, Nested: nested, Skip1: skip})
+				}
 			}
 		}
 	}
@@ -343,8 +357,20 @@ type suspectOut struct {
 }
 
 func body(t *testing.T, cfg Config, strict bool, sink func(execOut, []int)) func(c *explore.Ctx) {
+	var failing atomic.Int32
 	return func(c *explore.Ctx) {
+		if failing.Load() > 12 && !c.Replaying() {
+			// this configuration already produced confirmed violations: do not enumerate the rest of its tree
+			// (runConfig reports the configuration as not exhaustive)
+			if sink != nil {
+				sink(execOut{discard: "cut"}, nil)
+			}
+			c.Prune()
+		}
 		r := execute(t, cfg, c, strict)
+		if r.fail != nil {
+			failing.Add(1)
+		}
 		if sink != nil {
 			sink(r, c.Choices())
 		}
@@ -384,10 +410,15 @@ type taskOut struct {
 func runConfig(t *testing.T, cfg Config, deadline time.Time) taskOut {
 	o := taskOut{Cfg: cfg.Name()}
 	leakedBefore := bubble.Leaked()
+	cut := false
 	var mu sync.Mutex
 	sink := func(r execOut, choices []int) {
 		mu.Lock()
 		defer mu.Unlock()
+		if r.discard == "cut" {
+			cut = true
+			return
+		}
 		if r.discard != "" {
 			o.Discards++
 		}
@@ -404,6 +435,9 @@ func runConfig(t *testing.T, cfg Config, deadline time.Time) taskOut {
 	st := explore.Run(body(t, cfg, false, sink), explore.Options{Workers: 1, Deadline: deadline, MaxDepth: 2000, PanicIsBug: true, Samples: 2, MaxViol: 6})
 	o.Executions, o.Points, o.Divergences, o.Outcomes = st.Executions, st.Points, st.Divergences, st.Outcomes
 	o.Exhaustive, o.CapHit, o.WallS = st.Exhaustive, st.CapHit, st.WallS
+	if cut {
+		o.Exhaustive, o.CapHit = false, "cut_after_violations"
+	}
 	o.Leaked = bubble.Leaked() - leakedBefore
 	if len(st.Samples) > 0 {
 		o.Sample = &st.Samples[len(st.Samples)-1]
@@ -612,7 +646,7 @@ func TestCheck(t *testing.T) {
 			"strict_confirmations":       confirm,
 			"leaked_bubbles":             leakedB + bubble.Leaked(),
 			"shard_workers":              env.Workers,
-			"bounds":                     "endings {Done, Stop only, assertion, Error label, resource error in body, resource error in PreCommit} x resource mixes {2 plain, plain with failing Close, IncMap with realised elements, HashMap with 3 configured elements, nested-archetype resource with an instrumented inner resource} x 0-3 (thorough 0-4) Stop callers started at every scheduling point (before Run, at each section start, inside each Close, after Run, around a second Run) x with/without a second Run call, plus Stop callers on a context whose Run is never called; every interleaving, no preemption bound",
+			"bounds":                     "endings {Done, Stop only, assertion, Error label, resource error in body, resource error in PreCommit} x resource mixes {2 plain, plain with failing Close, IncMap with realised elements, HashMap with 3 configured elements, nested-archetype resource with an instrumented inner resource} plus the nested mix with a nested archetype that ends on its own (Done / error / assertion, after serving 0 or 1 outer sections; outer section 2 using or not using the nested resource; outer ending Done or Stop-only; 0-2 Stop callers) x 0-3 (thorough 0-4) Stop callers started at every scheduling point (before Run, at each section start, inside each Close, after Run, around a second Run) x with/without a second Run call, plus Stop callers on a context whose Run is never called; every interleaving, no preemption bound",
 		}
 		if len(samples) == 0 {
 			cov["samples"] = []any{"(no sample of the selected shapes)"}
